@@ -9,6 +9,7 @@ from ..rules import match, exa, fmt, shape
 from . import common
 
 EXPLANATION = (
+  "(FIN-timeparse, shared with C04) a printed time code parses back: parse_time_expression interpreted on a grid - every frame label below the rate, the last one of a second included, means s + ff / rate at integer and 1001-based rates, the label one past it is refused; "
   "Decides two clauses of C12 for every input. (EXA) On every seconds->frames path of time_code.py and of the IMSC writer's "
   "to_time_format, no inexact binary float produced by the code's own arithmetic (float(Fraction), Fraction*float, quotient "
   "arithmetic) reaches a truncation (int/floor/ceil/round) - so a time lying exactly on a frame boundary converts to that frame - and "
@@ -505,6 +506,8 @@ def check_parse_rate(ctx):
 
 
 def run(ctx):
+  from ..rules import probes as _probes12
+  ctx.floor("FIN-timeparse", "time expression probes decided", _probes12.check_time_expression_probes(ctx), 40)
   ix = ctx.ix
   fs = common.funcs(ctx, ["ttconv.time_code"]) + [ix.func("ttconv.imsc.attributes:to_time_format")]
   if ctx.tier == "thorough":
